@@ -19,6 +19,7 @@ import DtailModel.Model.KnownHosts
 import DtailModel.Model.Perm
 import DtailModel.Model.Aggregate
 import DtailModel.Model.Outfile
+import DtailModel.Model.Limiter
 open Dtail
 
 structure Res where
@@ -685,6 +686,72 @@ def opC15Write : List String → Res
     | _, _ => bad
   | _ => bad
 
+/-! C13 -/
+
+/-- the harness' script ops mapped to model labels.  A started read acquires or queues
+    (decided by the state, as in the real select with default); cancelling a holding read has
+    no effect until its file ends (the read blocks in read(2)); `F` ends the file. -/
+structure C13Run where
+  st : LimState
+  cancelled : List Nat := []     -- reads whose context is cancelled
+  fileEnded : List Nat := []     -- reads whose FIFO writer is closed
+  ok : Bool := true
+
+def c13returned (r : C13Run) : Nat := (r.st.reads.filter (fun p => p = .finished ∨ p = .cancelled)).length
+
+/-- internal steps until quiescence: waiting reads acquire when a slot is free (lowest index
+    first is one admissible schedule; the harness only lets at most one read wait for a free
+    slot when it compares token counts) -/
+def c13settle : Nat → C13Run → C13Run
+  | 0, r => r
+  | fuel + 1, r =>
+    -- a holding read whose file ended finishes
+    match (List.range r.st.reads.length).find? (fun i => r.st.reads[i]? = some .holding ∧ r.fileEnded.contains i) with
+    | some i => match limStep r.st (.finish i) with
+      | some s => c13settle fuel { r with st := s }
+      | none => { r with ok := false }
+    | none =>
+      match (List.range r.st.reads.length).find? (fun i => r.st.reads[i]? = some .waiting ∧ r.cancelled.contains i) with
+      | some i => match limStep r.st (.cancelWhileWaiting i) with
+        | some s => c13settle fuel { r with st := s }
+        | none => { r with ok := false }
+      | none =>
+        match (List.range r.st.reads.length).find? (fun i => r.st.reads[i]? = some .waiting) with
+        | some i => if r.st.tokens < r.st.cap then
+            match limStep r.st (.acquireAfterWait i) with
+            | some s => c13settle fuel { r with st := s }
+            | none => { r with ok := false }
+          else r
+        | none => r
+
+def c13op (r : C13Run) (op : String) : C13Run :=
+  let i := ((op.drop 1).toString.toNat?).getD 0
+  let r := match op.toList.head? with
+    | some 'S' =>
+      let l := if r.st.tokens < r.st.cap then LimLabel.tryAcquire i else LimLabel.startWait i
+      (match limStep r.st l with | some s => { r with st := s } | none => { r with ok := false })
+    | some 'C' => { r with cancelled := i :: r.cancelled }
+    | some 'F' => { r with fileEnded := i :: r.fileEnded }
+    | _ => { r with ok := false }
+  c13settle 64 r
+
+def opC13Script : List String → Res
+  | [cap, ops] => match cap.toNat? with
+    | some cap =>
+      let opl := (ops.splitOn ",").filter (· ≠ "")
+      let n := opl.length
+      let (r, obs) := opl.foldl (fun (acc : C13Run × List String) op =>
+          let r := c13op acc.1 op
+          (r, acc.2 ++ [s!"{r.st.tokens}/{c13returned r}"])) ({ st := limInit cap n }, [])
+      -- at the end every read is cancelled and every file ended: all tokens must be back
+      let maxHold := obs.foldl (fun m o => max m ((o.splitOn "/").headD "0" |>.toNat?.getD 0)) 0
+      { m := if r.ok then joinWith "," obs ++ ";final=0" else "MODEL-LABEL-NOT-ENABLED",
+        s := if maxHold ≤ cap then "within-limit;final=0" else "LIMIT-EXCEEDED",
+        t := joinWith "," ((if opl.any (·.startsWith "C") then ["cancel"] else []) ++ (if obs.any (fun o => o.startsWith s!"{cap}/") then ["full"] else [])
+            ++ (if opl.any (·.startsWith "F") then ["finish"] else [])) }
+    | none => bad
+  | _ => bad
+
 def dispatch (line : String) : Res :=
   match (line.splitOn " ").filter (· ≠ "") with
   | "c01.reader" :: a => opC01Reader a
@@ -702,6 +769,7 @@ def dispatch (line : String) : Res :=
   | "c10.run" :: a => opC10Run a
   | "c12.roundtrip" :: a => opC12Roundtrip a
   | "c11.parse" :: a => opC11Parse a
+  | "c13.script" :: a => opC13Script a
   | "c15.write" :: a => opC15Write a
   | "c16.colorfy" :: a => opC16Colorfy a
   | "c16.write" :: a => opC16Write a
